@@ -1,4 +1,4 @@
-CONSTANTS N = 2  Calls <- C2  Kinds <- KRR  Steps <- S30  MaxSend = 3  Reconn <- RBoth  Overlap = TRUE  KeepAlive = FALSE  PingNeutral = FALSE
+CONSTANTS N = 2  Calls <- C2  Kinds <- KRR  Steps <- S30  MaxSend = 3  Reconn <- RBoth  Overlap = TRUE  KeepAlive = FALSE  PingNeutral = FALSE  Faults = FALSE
 SPECIFICATION Spec
 CONSTRAINT SendBound
 INVARIANTS TypeOK RotationIsHealthy ProbeQueueSingle CallsGoSomewhere
